@@ -13,7 +13,7 @@ BOUNDS = ("Container.dilute / Container.fill_to on an arbitrary valid container:
           "enzyme bystander}, every amount symbolic in [1e-2, 1e5], symbolic target concentration / fill target and a "
           "symbolic capacity; solvents water and DMSO; concentration spellings M, m, mol/L, g/L, mg/mL, g/g, mg/g, "
           "mol/mol, mol/kg, L/L, mL/L, g/mol, %w/w, %v/v, %w/v; fill units uL/mL/L, mg/g, umol/mmol/mol. "
-          "Lite rounding model.")
+          "Lite rounding model. A ternary mixture also under the storage configuration (mmol, mL) (thorough: + (mol, uL), (nmol, uL), (umol, L)).")
 OUTSIDE = ("IEEE rounding; dilution of enzymes (declared unsupported by the library); more than 4 components; the no-op "
            "tolerance band |c*bottom - top| <= 1e-6*top, inside which an unchanged copy is the expected answer.")
 ASSUMPTIONS = ["instruction-text helpers are replaced by non-forking summaries (subject of C19)"]
@@ -44,6 +44,19 @@ def cells(tier, seed):
     for unit in (['uL', 'mL', 'L', 'mg', 'g', 'umol', 'mmol', 'mol'] if tier == 'thorough' else ['mL', 'g', 'mmol']):
         for name, solute, others, solvent in (MIXES if tier == 'thorough' else [MIXES[0], MIXES[2], MIXES[3], MIXES[6]]):
             out.append({'id': f"fill_to/{unit}/{name}", 'fn': 'h_fill_to', 'round': 'lite', 'max_paths': 200,
+                        'params': {'unit': unit, 'mix': [solute] + others, 'solvent': solvent}})
+    # the same postconditions under other storage configurations (the library generated with another pyplate.yaml)
+    from .c18 import config_dir
+    for cfg in ([('mmol', 'mL', 10)] if tier == 'quick' else [('mmol', 'mL', 10), ('mol', 'uL', 10), ('nmol', 'uL', 10), ('umol', 'L', 10)]):
+        d, tag = config_dir(*cfg)
+        name, solute, others, solvent = MIXES[1]
+        for cu in ['M', 'mg/g']:
+            out.append({'id': f"dilute/{cu.replace('/', '_')}/{name}@{tag}", 'fn': 'h_dilute', 'round': 'lite', 'max_paths': 200,
+                        'config': d, 'config_tag': tag,
+                        'params': {'cu': cu, 'solute': solute, 'others': others, 'solvent': solvent}})
+        for unit in ['mL', 'mmol']:
+            out.append({'id': f"fill_to/{unit}/{name}@{tag}", 'fn': 'h_fill_to', 'round': 'lite', 'max_paths': 200,
+                        'config': d, 'config_tag': tag,
                         'params': {'unit': unit, 'mix': [solute] + others, 'solvent': solvent}})
     return out
 
